@@ -231,7 +231,10 @@ func genScript(g *gctx, tier string) {
 	for i := 0; i < k; i++ {
 		g.nodes = append(g.nodes, &gnode{stage: 'f'})
 	}
-	scenario := r.Pick(60, 12, 14, 14)
+	scenario := r.Pick(54, 11, 13, 13, 9)
+	if k < 2 && scenario == 4 {
+		scenario = 0
+	}
 	stages := []string{"fresh", "hs", "hsfail", "ready", "busy", "stopped", "dropped", "stoppedearly"}
 	weights := []int{12, 15, 7, 42, 10, 5, 4, 5}
 	switch scenario {
@@ -244,6 +247,64 @@ func genScript(g *gctx, tier string) {
 	case 3: // stopped nodes between ready ones
 		weights = []int{4, 6, 10, 40, 5, 18, 10, 7}
 		g.stats["scenario:stopped-in-scan"]++
+	case 4: // every node ready and at the top of the chain; one node after the other is caught between Stop() and the end of its run()
+		g.stats["scenario:closing-window"]++
+		for i := 0; i < k; i++ {
+			g.emit(fmt.Sprintf("hs i=%d", i))
+			g.emit(fmt.Sprintf("verify i=%d ok=1", i))
+			g.emit(fmt.Sprintf("announce i=%d b=%d", i, 8+r.Intn(2)))
+			g.nodes[i].stage = 'v'
+		}
+		if tx == 1 {
+			for j := 0; j < 3; j++ {
+				g.addtx()
+			}
+		}
+		for round := 0; round < 3+r.Intn(4); round++ {
+			ready := 0
+			for _, n := range g.nodes {
+				if n.stage == 'v' && !n.busy {
+					ready++
+				}
+			}
+			if ready < 2 && len(g.nodes) < maxNodes {
+				i := len(g.nodes)
+				g.emit("add")
+				g.nodes = append(g.nodes, &gnode{stage: 'v'})
+				g.emit(fmt.Sprintf("hs i=%d", i))
+				g.emit(fmt.Sprintf("verify i=%d ok=1", i))
+				g.emit(fmt.Sprintf("announce i=%d b=9", i))
+			}
+			kk := g.pick(func(n *gnode) bool { return n.stage == 'v' && !n.busy })
+			if kk < 0 {
+				break
+			}
+			switch r.Pick(40, 30, 20, 10) {
+			case 0:
+				g.emit(fmt.Sprintf("reqblock b=%d close=%d", r.Intn(8), kk))
+				if bi := g.pick(func(n *gnode) bool { return n.stage == 'v' && n.busy }); bi >= 0 && r.Chance(50) {
+					g.emit(fmt.Sprintf("deliver i=%d", bi))
+				}
+			case 1:
+				g.emit(fmt.Sprintf("reqheaders close=%d", kk))
+			case 2:
+				g.emit(fmt.Sprintf("reqtxs close=%d", kk))
+				if tx == 1 {
+					g.addtx()
+				}
+			case 3:
+				g.emit(fmt.Sprintf("sendtx close=%d", kk))
+			}
+			g.nodes[kk].stage = 'x'
+			g.stats["closing-window"]++
+			if r.Chance(40) {
+				g.emit("reqheaders")
+			}
+		}
+		for j := 0; j < 3; j++ {
+			g.emit("reqheaders")
+		}
+		return
 	default:
 		g.stats["scenario:mixed"]++
 	}
